@@ -932,9 +932,14 @@ class FilePath(AbstractFilePath[AnyStr]):
         @rtype: L{FilePath} with a mode equal to the type of C{path}.
         """
         ourPath = self._getPathAsSameTypeAs(path)
+        sep = _coerceToFilesystemEncoding(path, os.sep)
 
         newpath = abspath(joinpath(ourPath, normpath(path)))
-        if not newpath.startswith(ourPath):
+        # A plain string-prefix test would also accept a sibling whose name
+        # merely starts with our name ("/tmp/foobar" for "/tmp/foo"), so
+        # compare against our path followed by a separator.
+        ourPrefix = ourPath if ourPath.endswith(sep) else ourPath + sep
+        if newpath != ourPath and not newpath.startswith(ourPrefix):
             raise InsecurePath(f"{newpath!r} is not a child of {ourPath!r}")
         return self.clonePath(newpath)
 
